@@ -57,6 +57,10 @@ def ensure_ntlm_env() -> None:
         d = _ntlm_dir
         pid = os.getpid()
         atexit.register(lambda: os.getpid() == pid and shutil.rmtree(d, ignore_errors=True))
+        # (a forked pool worker leaves through os._exit: atexit does not run there, multiprocessing's finalizers do)
+        import multiprocessing.util as _mpu
+
+        _mpu.Finalize(None, lambda: os.getpid() == pid and shutil.rmtree(d, ignore_errors=True), exitpriority=0)
     os.environ["NTLM_USER_FILE"] = os.path.join(_ntlm_dir, "users")
 
 
